@@ -14,12 +14,16 @@ Conventions of the library that everything here relies on (read off renormalizer
   position of the centre (``get_qnmat`` builds exactly this mask);
 * ``TTNS.todense(order)`` contracts the tensors only (no ``coeff``) and returns an array with one axis per entry of
   ``order``; size-1 axes are squeezed away before the contraction, so ``order`` must not contain one-state sets
-  (``todense()`` without argument therefore raises KeyError as soon as the tree contains a BasisDummy);
+  (``todense()`` without argument therefore raises KeyError as soon as the tree contains a BasisDummy).  Its
+  contraction-path search (opt_einsum 'optimal'/'dp') costs 0.1 .. 1 s for trees of 8+ nodes, so the helpers below
+  contract the node tensors themselves (``contract_tree``: tensordot from the leaves to the root, no named indices)
+  and use ``todense`` only on request (``library=True``) - the property modules cross-check the two;
 * ``TTNS.coeff`` is a scalar prefactor kept outside the tensors (``norm = |coeff| * ttns_norm``; ``scale`` multiplies
   the root tensor and leaves ``coeff`` alone; ``expectation``/RDMs are tensor-level quantities).
 
 The *reference order* used by all dense helpers is the ORIGINAL generation order of the model
-(``[b for b in basis_list if nbas > 1 or not dummy]``), independent of the tree.
+(``[b for b in basis_list if not isinstance(b, BasisDummy)]``; every such set must have ``nbas >= 2``),
+independent of the tree.
 """
 import numpy as np
 
@@ -178,8 +182,7 @@ def random_sector_ttns(rng, tree, qntot, mmax, percent=1.0, tries=5):
                 t = TTNS.random(tree, np.asarray(qntot, dtype=int), m, percent)
             ok = all(np.all(np.isfinite(nd.tensor)) for nd in t.node_list)
             if ok:
-                order = [b for b in tree.basis_list if not trees.is_dummy(b)]
-                nrm = float(np.linalg.norm(np.asarray(t.todense(order)).ravel()))
+                nrm = float(np.linalg.norm(contract_tree(t)[0].ravel()))
                 ok = np.isfinite(nrm) and nrm > 1e-8
         except Exception:  # noqa: BLE001 - constructor refusal, the caller falls back to product states
             ok = False
